@@ -39,6 +39,9 @@ type PackageNicknames struct {
 func (f *PackageNicknames) Call(s *slip.Scope, args slip.List, depth int) slip.Object {
 	slip.CheckArgCount(s, depth, f, args, 1, 1)
 	pkg := slip.PackageFromArg(args[0])
+	if pkg == nil {
+		slip.PackagePanic(s, depth, nil, "Package %s does not exist.", args[0])
+	}
 	nn := make(slip.List, len(pkg.Nicknames))
 	for i, str := range pkg.Nicknames {
 		nn[i] = slip.String(str)
